@@ -105,7 +105,9 @@ vh::Outcome run_rcu(const vh::Case& c, Prop prop) {
 
     out.res = vrt::run(c.sched, [&] {
         {
-            G rl;
+            A alloc_instance;
+            std::unique_ptr<G> rlp((c.cfg.size() > 1 && (c.cfg[1] & 1)) ? new G(alloc_instance) : new G());      // both list constructors
+            G& rl = *rlp;
             // the list's write mutex is the first modelled mutex constructed in this case
             st.wcore = vrt::rt().mutexes.empty() ? nullptr : vrt::rt().mutexes[0];
             auto do_push = [&](auto& h, int kind, int v) {
@@ -251,7 +253,7 @@ vh::Outcome run_rcu(const vh::Case& c, Prop prop) {
                             size_t hi = reg(me);
                             {
                                 auto h = rl.lock_read();
-                                (void)h->begin(); st.handles[hi].reg_step = vrt::now_step();
+                                (void)(*h).begin(); st.handles[hi].reg_step = vrt::now_step();       // registration through operator*
                                 st.handles[hi].alive = false;
                             }
                         }
@@ -289,6 +291,7 @@ vh::Outcome run_rcu(const vh::Case& c, Prop prop) {
                     for (int v : fin) { if (!st.key.count(v)) continue; long k = st.key[v]; if (!first && k <= last) vrt::fail("final-order", "final list order differs from the sequential model"); last = k; first = false; }
                 }
             }
+            rlp.reset();
         }   // ~rcu_guarded -> ~rcu_list
         // C13: everything the list allocated is gone, exactly once
         vrt::QLedger& L = vrt::ledger();
